@@ -14,9 +14,40 @@ CMP_KEYS = [
 GLOBAL_KEYS = ["global_bin_dsc", "global_bin_iou", "global_bin_assd", "global_bin_rvd"]
 
 
+PRIMED = {"calls": 0, "primed": 0}
+
+
+def maybe_prime(ev, pred, refa):
+    """a third of the judged calls (chosen by the content of the input, so that a replay makes the same choice) run on an
+    evaluator that has been used before: one earlier call on an input of ANOTHER dimensionality built from the same labels
+    (a 2-D slice of a 3-D input, two stacked copies of a 1-D / 2-D input).  Evaluation is pure, so this must not change the
+    judged result; what an object remembers from an earlier call becomes visible in the comparison with the unprimed runs."""
+    import zlib
+
+    PRIMED["calls"] += 1
+    try:
+        p, q = np.asarray(pred), np.asarray(refa)
+        if p.ndim < 1 or p.shape != q.shape or p.size == 0 or p.size > 2**16:
+            return
+        h = zlib.crc32(np.ascontiguousarray(p).tobytes()) ^ zlib.crc32(np.ascontiguousarray(q).tobytes()) ^ p.ndim
+        if h % 3 != 1:
+            return
+        if p.ndim >= 3:
+            pp, qq = np.ascontiguousarray(p[0]), np.ascontiguousarray(q[0])
+        else:
+            pp, qq = np.stack([p, p]), np.stack([q, q])
+        with np.errstate(all="ignore"):
+            pan.evaluate(ev, pp, qq)
+        PRIMED["primed"] += 1
+    except Exception:  # noqa: BLE001  (an input this configuration rejects: the evaluator stays as it was)
+        pass
+
+
 def run(cfg, pred, refa, evaluator=None, group=None, **kw):
     """returns read_result dict, or {'ERR': repr} if evaluate raised"""
     ev = evaluator or pan.make_evaluator(cfg)
+    if evaluator is None and not kw:
+        maybe_prime(ev, pred, refa)
     try:
         with np.errstate(all="ignore"):
             out = pan.evaluate(ev, pred, refa, **kw)
@@ -28,6 +59,8 @@ def run(cfg, pred, refa, evaluator=None, group=None, **kw):
 
 def run_all_groups(cfg, pred, refa, evaluator=None, **kw):
     ev = evaluator or pan.make_evaluator(cfg)
+    if evaluator is None and not kw:
+        maybe_prime(ev, pred, refa)
     try:
         with np.errstate(all="ignore"):
             out = pan.evaluate(ev, pred, refa, **kw)
